@@ -5,6 +5,18 @@ ENGINES = [
 ]
 ALL = ["C%02d" % i for i in range(1, 21)]
 CHECKS = [
+    {"id": "C01",
+     "text": "Coq theorems, for every history of add/remove/remove-by-source from the empty table (induction over op lists with the trie invariant WF, any address width) and every query: validation state = RFC 6811 over the set of records; reason records as specified; the traversal meets no undefined bit access. Model tied to /repo by exact, ordered differential execution of the extracted model against pfx_ops.c built from the working tree (asserts, ASan, UBSan) and by the translated lrtr_get_bits.",
+     "note": "Trusted: Coq kernel, extraction (ExtrOcamlBasic), harness, generators. Modelled not verified: trie.c/trie-pfx.c restated by hand in Pfx/TrieModel.v; the uint32 bit arithmetic of lrtr_get_bits/lrtr_ipv6_get_bits is related to the model's list-of-bits view by correspondence only. Locking is C16's business. No axioms.",
+     "technique": "Coq proof (invariant + refinement to RFC 6811 spec) + extracted-model/impl correspondence + spec oracle"},
+    {"id": "C02",
+     "text": "Coq theorems: every history keeps both tries well-formed, result codes equal the set spec's, the in-order enumeration is a duplicate-free permutation of the spec set, rejected operations leave the table unchanged, remove-by-source terminates (fuel = node count suffices). Tie as C01.",
+     "note": "As C01. Allocation failure paths (PFX_ERROR) are C18's business and not in this model.",
+     "technique": "Coq proof (refinement of the trie to a set, induction over histories) + correspondence"},
+    {"id": "C09",
+     "text": "Coq theorems: for every history of public operations the concatenated callback stream replays (strictly: an add of a present or a removal of an absent record is an error) from the empty set to exactly the table contents; pfx_table_free reports every record once. Tie: the harness installs update_fp and the callback stream is compared in order with the model's and replayed independently into a set that must equal the enumeration.",
+     "note": "As C01. Reload diff (copy_except/swap/notify_diff) and rollback inside rtr_sync are exercised by the correspondence run; their theorems are listed in evidence when present.",
+     "technique": "Coq proof (callback replay = contents, induction over histories) + correspondence"},
     {"id": "C20",
      "text": "Coq theorems over the translator's output (both enums, both name tables, both function bodies, regenerated from /repo on every run): every enumerator maps to its name, every other 32-bit value to NULL, no table read out of range. The real functions are additionally run under ASan on every enumerator and on values outside.",
      "note": "Trusted: Coq kernel, tools/c2v.py + clang AST, 32-bit enum objects, LP64. No axioms.",
